@@ -66,6 +66,16 @@ def annotations_sweep(tier, seed=0):
             "samples": [{"native_case": {"annotations": [{"priority": -2}, {"priority": 0}]}}], "failures": fails[:5]}
 
 
+def _outer(a, b):
+    return a[:, None] * b[None, :]
+
+
+def _rowsum_blocks(blocks):
+    if isinstance(blocks, list):
+        return sum(b.sum(axis=1) for b in blocks)
+    return blocks.sum(axis=1)
+
+
 def cull_sweep(tier, seed=0):
     import numpy as np
 
@@ -88,6 +98,20 @@ def cull_sweep(tier, seed=0):
         yield "two-inputs", (x + 1) * (x - 1)
         yield "concat-reduce", da.concatenate([x + 1, x * 2], axis=0).max(axis=1)
         yield "dot", da.dot(x + 1, (x.T - 1))
+        # the same input under two different index tuples (after fusion: [(sq, ij), (sq, ji)]); also directly
+        sq = da.from_array(np.arange(16).reshape(4, 4), chunks=(2, 2), name="sq-base")
+        yield "same-input-twice", (sq + 1) + (sq * 3).T
+        v = da.from_array(np.arange(6) + 1, chunks=2, name="v-base")
+        yield "outer-of-one-input", da.blockwise(_outer, "ij", v, "i", v, "j", dtype=v.dtype)
+        # two contraction layers (no concatenate: the function gets the list of blocks) with different numbers of
+        # blocks along their contracted index, fused into one consumer
+        p = da.from_array(np.arange(12).reshape(4, 3), chunks=(2, 3), name="p-base")
+        q = da.from_array(np.arange(24).reshape(4, 6) * 7, chunks=(2, 2), name="q-base")
+        sp = da.blockwise(_rowsum_blocks, "i", p, "ij", dtype=p.dtype)
+        tq = da.blockwise(_rowsum_blocks, "i", q, "ij", dtype=q.dtype)
+        yield "two-contractions", sp * 2 + tq
+        q2 = da.from_array(np.arange(16).reshape(4, 4) + 5, chunks=(2, 2), name="q2-base")
+        yield "two-contractions-2-vs-3-blocks", da.blockwise(_rowsum_blocks, "i", q2, "ij", dtype=q2.dtype) - tq
 
     with dask.config.set(scheduler="sync"):
         for name, arr in stacks():
@@ -135,11 +159,38 @@ def cull_sweep(tier, seed=0):
                         got = dask.get(dict(opt), list(ks))
                         if any(not np.array_equal(a, want_all[k]) for a, k in zip(got, ks)):
                             msg = "optimize_blockwise (layer fusion) changed the computed values"
+                    if msg is None:
+                        # the FUSED graph culled to the keys: nothing needed is dropped, values unchanged, and every
+                        # fused blockwise layer reports the dependencies of its materialised tasks
+                        oc = opt.cull(set(ks))
+                        d = dict(oc)
+                        missing = [dep for k in d for dep in get_dependencies(d, k) if dep not in d]
+                        if missing:
+                            msg = f"cull of the fused graph: keys {missing[:3]} needed by the kept tasks were dropped"
+                        else:
+                            got = dask.get(d, list(ks))
+                            if any(not np.array_equal(a, want_all[k]) for a, k in zip(got, ks)):
+                                msg = "cull of the fused graph: computed values differ from the unfused, unculled graph"
+                        fullopt = dict(opt)
+                        for lname, layer in opt.layers.items():
+                            if msg or not isinstance(layer, Blockwise):
+                                continue
+                            out_keys = sorted(layer.get_output_keys(), key=str)
+                            for sel in [set(out_keys[:1]), set(out_keys[-1:]), set(out_keys[1:2]) or set(out_keys[:1]), set(rnd.sample(out_keys, max(1, len(out_keys) // 2)))]:
+                                culled, deps = layer.cull(sel, set(fullopt))
+                                mat = dict(culled)
+                                for k in sel:
+                                    real = set(get_dependencies({**fullopt, **mat}, k))
+                                    if set(deps.get(k, ())) != real:
+                                        msg = f"fused Blockwise.cull reports dependencies {sorted(map(str, deps.get(k, ())))[:4]} for {k}, its materialised task needs {sorted(map(str, real))[:4]}"
+                                        break
+                                if msg:
+                                    break
                 except Exception as e:  # noqa
                     msg = f"{type(e).__name__}: {e}"
                 if msg:
                     fails.append(rtc.Failure("HighLevelGraph.cull", {"stack": name, "keys": [str(k) for k in ks][:6]}, "ensures", "C10-cull-and-fusion-sound", msg))
     return {"function": "dask/highlevelgraph.py:cull, dask/blockwise.py:Blockwise.cull/optimize_blockwise (real code, NumPy values)", "bounded": True,
-            "bound": {"layer stacks": 6, "key subsets per stack": 5 if tier == "quick" else 11, "double cull": True},
+            "bound": {"layer stacks": 10, "fused graph": "culled again, fused Blockwise.cull dependencies checked", "key subsets per stack": 5 if tier == "quick" else 11, "double cull": True},
             "cases": cases, "distinct_nontrivial": cases, "failures_found": len(fails), "wall_s": round(time.time() - t0, 2),
             "samples": [{"native_case": {"stack": "elemwise-transpose-sum", "keys": "half of the output blocks"}}], "failures": fails[:5]}
